@@ -59,6 +59,9 @@ pub fn fs_hard_link(from: &PathH, to: &PathH) -> (r: MigrationResult<()>)
 {
     unimplemented!()
 }
+// std::fs::rename: moves the name, REPLACING whatever is at the destination
+#[verifier::external_body]
+pub fn fs_rename(from: &PathH, to: &PathH) -> MigrationResult<()> { unimplemented!() }
 #[verifier::external_body]
 pub fn fs_remove_file(path: &PathH) -> std::result::Result<(), IoErr> { unimplemented!() }
 #[verifier::external_body]
